@@ -61,8 +61,15 @@ TanTol(nm) == 100 + (nm * 1000) \div 6
 \* latitude phi moves the longitude by p/(a cos phi), i.e. S12 by about 6.3e-3 p / cos(phi) m^2: the area obligation is
 \* stated at the position accuracy, so this conditioning term is added (cmin = cos of the highest end latitude, 1e-6).
 \* Within 0.06 degree of a pole (cmin < 1e-3) the longitude itself is ill-defined at this accuracy: no area obligation.
-AreaTolAt(nm, cmin) == IF cmin < 1000 THEN 2000000001 ELSE 1000 + (63 * nm * 1000) \div (cmin \div 1000)
+AreaTolAt0(nm, cmin) == 1000 + (63 * nm * 1000) \div (cmin \div 1000)
 AreaTol == 1000
+\* the accuracy of the series expansions is documented for |f| <= 0.01 (table in Geodesic.hpp is a distance table; for
+\* |f| = 0.02 the 6th-order area series has no documented bound): area obligations are stated for fi <= 6
+AreaOK(v, nm, r) == r.cmin < 1000 \/ r.fi > 6 \/ v <= AreaTolAt0(nm, r.cmin)
+\* inverse problem: the azimuths at the end points are determined to (position error) / m12, and S12 ~ c2 (azi2 - azi1):
+\* an additional 4e13 m^2 x nm x 1e-9 / m12 (no obligation when |m12| < 1 km, i.e. next to a conjugate point)
+AreaOKInv(v, nm, r) ==
+  r.cmin < 1000 \/ r.fi > 6 \/ r.m12m < 1000 \/ v <= AreaTolAt0(nm, r.cmin) + (400000 * nm) \div (r.m12m \div 1000)
 ScaleTol == 1000                              \* 1e-12: geodesic scales M12, M21
 
 DlOK(r) ==
@@ -84,43 +91,49 @@ DlOK(r) ==
   /\ (Prop = "C03" =>
         /\ r.mm[1] <= se /\ r.mm[2] <= ScaleTol * c /\ r.mm[3] <= ScaleTol * c
         \* series vs exact area: stated where the series accuracy is documented (|f| <= 0.01)
-        /\ (r.fi <= 6 => r.mm[4] <= AreaTolAt(se, r.cmin))
-        /\ r.mm[5] <= ss /\ r.mm[6] <= ScaleTol * c /\ r.mm[7] <= ScaleTol * c /\ r.mm[8] <= AreaTolAt(ss, r.cmin)
+        /\ AreaOK(r.mm[4], se, r)
+        /\ r.mm[5] <= ss /\ r.mm[6] <= ScaleTol * c /\ r.mm[7] <= ScaleTol * c /\ AreaOK(r.mm[8], ss, r)
         \* reversal: m12 negated by travelling backwards, M12 and M21 exchanged, S12 negated
-        /\ r.back[1] <= ss /\ r.back[2] <= ss /\ r.back[3] <= ScaleTol * c /\ r.back[4] <= ScaleTol * c /\ r.back[5] <= AreaTolAt(ss, r.cmin))
+        /\ r.back[1] <= ss /\ r.back[2] <= ss /\ r.back[3] <= ScaleTol * c /\ r.back[4] <= ScaleTol * c /\ AreaOK(r.back[5], ss, r))
 
 \* the inverse problem is well conditioned for azimuths: not (nearly) coincident, antipodal or polar-antipodal
 \* (catalogue in Geodesic.hpp: lat1 = -lat2 with azi1 # azi2, and lon2 = lon1 +- 180 with azi1 not 0/180, have two solutions)
+\* cls 3: separations down to 1e-15 degree; 4: nearly antipodal; 6, 7: antipodal / both poles; 8: coincident
 Conditioned(r) ==
-  /\ r.cls \notin {3, 4, 6, 7, 8} /\ r.deg[3] >= 2000000000
+  /\ r.cls \notin {3, 4, 6, 7, 8} /\ r.deg[3] >= 1000000           \* at least 1 mm apart
   /\ (r.deg[1] = 0 => r.eqaz) /\ (r.deg[2] = 0 => r.meraz)
+\* azimuth of a line of length s12 between points known to p nm: p / s12 radians (1e-15 units), added for short lines
+ShortTerm(nm, s12nm) ==
+  IF s12nm >= 2000000000 THEN 0
+  ELSE LET q == ((nm + 8) * 1000000) \div (s12nm \div 1000000) IN IF q > 2000000 THEN 2000000000 ELSE q * 1000
+TanTolS(nm, r) == TanTol(nm) + ShortTerm(nm, r.deg[3])
 IlOK(r) ==
   LET se == TolSE(r.fi)  ss == TolSS(r.fi) IN
   /\ r.arc
   \* I1: following the returned azimuth for the returned distance arrives at point 2 with the returned azimuth
   /\ r.clo[1] <= ss /\ r.clo[2] <= TolEE /\ r.clo[3] <= TolEE
-  /\ (Conditioned(r) => r.clt[1] <= TanTol(ss) /\ r.clt[2] <= TanTol(TolEE) /\ r.clt[3] <= TanTol(TolEE))
+  /\ (Conditioned(r) => r.clt[1] <= TanTolS(ss, r) /\ r.clt[2] <= TanTolS(TolEE, r) /\ r.clt[3] <= TanTolS(TolEE, r))
   \* shortest: triangle inequality through a third point; symmetric in its end points
   /\ r.tri[1] <= 3 * Exact /\ r.tri[2] <= TolEE
   \* I4: the solvers agree
   /\ r.agr[1] <= se /\ r.agr[2] <= TolEE /\ r.agr[3] <= 10 * se
-  /\ (Conditioned(r) => r.agr[4] <= TanTol(se) /\ r.agr[5] <= TanTol(se))
+  /\ (Conditioned(r) => r.agr[4] <= TanTolS(se, r) /\ r.agr[5] <= TanTolS(se, r))
   \* I3: every element of the symmetry group (descriptors from GeodSym) changes the outputs as documented
   /\ \A k \in 1..Len(r.sym) :
        LET d == r.sym[k] IN
        /\ d[1] <= TolEE /\ d[2] <= 10 * TolEE
-       /\ (Conditioned(r) => d[3] <= TanTol(TolEE) /\ d[4] <= TanTol(TolEE))
-       /\ (Prop = "C03" /\ Conditioned(r) => d[5] <= TolEE /\ d[6] <= ScaleTol /\ d[7] <= ScaleTol /\ d[8] <= AreaTolAt(TolEE, r.cmin))
+       /\ (Conditioned(r) => d[3] <= TanTolS(TolEE, r) /\ d[4] <= TanTolS(TolEE, r))
+       /\ (Prop = "C03" /\ Conditioned(r) => d[5] <= TolEE /\ d[6] <= ScaleTol /\ d[7] <= ScaleTol /\ AreaOKInv(d[8], TolEE, r))
   /\ (Prop = "C03" /\ Conditioned(r) =>
-        /\ r.agr[6] <= se /\ r.agr[7] <= ScaleTol /\ r.agr[8] <= ScaleTol /\ (r.fi <= 6 => r.agr[9] <= AreaTolAt(se, r.cmin))
-        /\ r.itf[1] <= ss /\ r.itf[2] <= ScaleTol /\ r.itf[3] <= ScaleTol /\ r.itf[4] <= AreaTolAt(ss, r.cmin))
+        /\ r.agr[6] <= se /\ r.agr[7] <= ScaleTol /\ r.agr[8] <= ScaleTol /\ AreaOKInv(r.agr[9], se, r)
+        /\ r.itf[1] <= ss /\ r.itf[2] <= ScaleTol /\ r.itf[3] <= ScaleTol /\ AreaOKInv(r.itf[4], ss, r))
 
 AlOK(r) ==
   LET t == IF r.kind = 0 THEN TolSS(r.fi) ELSE TolEE IN
   /\ r.add[1] <= t /\ r.add[2] <= 10 * t
   /\ r.add[3] <= t /\ r.add[4] <= 10 * t /\ r.add[5] <= 10 * t        \* (the M rules are stated multiplied by m12, m23: metres)
-  /\ r.add[6] <= AreaTolAt(t, r.cmin)
-  /\ r.poly[1] <= 3 * AreaTol + 3 * AreaTolAt(t, 200000)
+  /\ AreaOK(r.add[6], t, r)
+  /\ (r.fi > 6 \/ r.poly[1] <= 3 * AreaTol + 3 * AreaTolAt0(t, 200000))
   /\ \A k \in 1..4 : r.area[k] <= 100          \* 1e-14 relative: all classes equal the closed-form ellipsoid area
 
 Obligation(r) ==
